@@ -1,5 +1,5 @@
 (* C09 - mailbox capacity is a hard bound with waiting (not dropping) back-pressure. *)
-From RS Require Import Tactics Spec Lifecycle Queue QueueStep CoreInv Delivery Config.
+From RS Require Import Tactics Spec Lifecycle Queue QueueStep CoreInv Delivery Config Chan ChanInv.
 
 (* accepted-but-not-taken items (a queued stop request included) plus reserved slots never
    exceed the capacity; a sender waits only while no slot is free; capacity is positive *)
@@ -57,6 +57,12 @@ Example C09_example_run :
     = Some ([(2, KTell)], [3], [(1, KTell)]).
 Proof. vm_compute. reflexivity. Qed.
 
+(* ---- at permit granularity (Model/Chan.v): queued messages plus permits handed out never exceed
+   the capacity, under any interleaving *)
+Theorem C09_fine_bound : forall w cap n ls,
+  length (c_queue (crun w cap n ls)) + held (crun w cap n ls) <= cap.
+Proof. exact chan_bound. Qed.
+
 Check C09_bound. Check C09_waiting_not_lost. Check C09_zero_rejected. Check C09_shape. Check C09_default_config.
 Print Assumptions C09_bound.
 Print Assumptions C09_waiting_not_lost.
@@ -64,3 +70,5 @@ Print Assumptions C09_zero_rejected.
 Print Assumptions C09_shape.
 Print Assumptions C09_default_config.
 Print Assumptions C09_example_run.
+Check C09_fine_bound.
+Print Assumptions C09_fine_bound.
